@@ -533,7 +533,15 @@ CLAIMS = {
          "congruence and a lock-step pruning theorem; Go.Sem.zero made total, callG given Go's arity rule). core_to_go_preserves is the same "
          "up to the file before DCE. The back-end conjunct admits trait objects (compile_preserves_run_dyn under the decidable implsOK); the DCE "
          "contract admits dead field projections of non-pointer static type (inertSyn_sound_field; Go.Sem: nil value of a non-pointer type is stuck). "
-         "On the real programs (quick): InEmitFragment 260 of 534, every compiled file inside the DCE contract. Tie: the composite model on the "
+         "FOURTH STAGE (round 11): the back-end conjunct also admits trait objects whose receiver type is a function type or an admitted enum "
+         "(GoFrag.dynRecvTy; for an enum the wrapper's assertion self.(E) goes through Go's method-set rule, so the file-level check gained "
+         "dynRecvTableOK: every variant struct has the enum interface's method set, DynLink.recv); compile_preserves_run(_dyn) and "
+         "core_to_emitted_go_preserves are re-proved with unchanged statements. "
+         "On the real programs (quick): InEmitFragment 340 of 603 (329 before this stage; InPipeFragment 382), every compiled file inside the DCE contract; "
+         "for every program still outside the evidence names the ROOT reason (GoFrag.rootReason: the first failing clause of the deepest callee on the "
+         "chain of callee-outside-fragment): inexact Go constant expressions 36, closure conversions that go/compile.rs emits ill-typed "
+         "(closure environment for a function type 29, function type for a closure environment 28, in arms / arrays / branches / results 13), floats 24, "
+         "extern calls 7, `missing` 3, string_get / json_escape_string 2 - the first two groups are outside BY DESIGN (Go.Sem is not Go there / the Go does not compile). Tie: the composite model on the "
          "REAL Core dump equals the REAL Mono, Lift and ANF dumps for every corpus and generated program; the whole-pipeline model on the REAL Core dump + REAL GlobalGoEnv dump equals the REAL emitted "
          "Go AST; the evidence reports how many real programs lie inside each fragment (InPipeFragment, InLiftAnfFragment, InE2EFragment, "
          "InEmitFragment) and why the others do not.",
